@@ -900,3 +900,34 @@ reg(Contract(
         "quantis_swap_zero": Contract("quantis_swap_zero", params=["picked", "engines"], custom=_move_summary("quantis_swap_zero", 2)),
     },
 ))
+
+
+# ------------------------------------------------------------------ prepare_shooting_point: velocities are regenerated on a COPY (C16 / C09)
+def _psp_make(ex, st):
+    e = mk_ens(st, ("L",), None)
+    return {"path": mk_path(st, "path", 3), "rgen": e["rgen"], "engine": EngineObj(), "ens_set": e}
+
+
+def _psp_post(ctx):
+    p = ctx.a("path")
+    sp, idx, dek = ctx.result
+    calls = ctx.st.ghost.get("engine_calls", [])
+    mv = [d for k, d in calls if k == "modify_velocities"]
+    co = [d for k, d in calls if k == "calculate_order"]
+    n = pplen(ctx.old, p)
+    return [
+        ("shooting_index_is_interior", z3.And(1 <= idx, idx <= n - 2)),
+        ("returned_point_is_a_fresh_copy_not_a_frame_of_the_path", z3.And(sp.term >= ctx.old.alloc, sp.term < ctx.st.alloc)),
+        ("velocities_are_regenerated_exactly_once_and_on_the_copy", z3.And(z3.BoolVal(len(mv) == 1), mv[0]["system"].term == sp.term) if mv else z3.BoolVal(False)),
+        ("the_copy_is_the_shooting_frame_identity_kept", z3.Select(ctx.st.heap["System.gid"], sp.term) == z3.Select(ctx.old.heap["System.gid"], ppat(ctx.old, p, idx))),
+        ("order_parameter_is_recomputed_for_the_copy", z3.And(z3.BoolVal(len(co) == 1), z3.Select(ctx.st.heap["System.order0"], sp.term) == co[0]["order"]) if co else z3.BoolVal(False)),
+        ("the_frame_it_was_taken_from_and_every_other_frame_untouched", unchanged_below(ctx, sys_fields(), ctx.old.alloc)),
+        ("the_path_itself_untouched", unchanged_below(ctx, ["Path.pp", "Path.pp#len"] + PATH_SCALARS, ctx.old.alloc)),
+    ]
+
+
+reg(Contract(
+    "prepare_shooting_point#contract", src=(TIS_PY, "prepare_shooting_point"), cases=[Case("sym", _psp_make)],
+    requires=lambda c: [("at_least_three_frames", pplen(c.st, c.a("path")) >= 3)],
+    ensures=[("prepare", _psp_post)], canaries=[("always_picks_frame_1", lambda c: c.result[1] == 1)],
+))
